@@ -92,6 +92,27 @@ func (t *tree) materialize(root string) error {
 		p := filepath.Join(root, n.path)
 		switch n.kind {
 		case 'f':
+			if len(p) >= 4096 {
+				// a regular file whose full path is beyond PATH_MAX: created (content, times) through its parent directory
+				d, err := os.Open(filepath.Dir(p))
+				if err != nil {
+					return err
+				}
+				fd, err := syscall.Openat(int(d.Fd()), filepath.Base(p), syscall.O_CREAT|syscall.O_WRONLY, 0o644)
+				d.Close()
+				if err != nil {
+					return err
+				}
+				buf := make([]byte, n.size)
+				for i := range buf {
+					buf[i] = patByte(n.seed, int64(i))
+				}
+				syscall.Write(fd, buf)
+				tv := []syscall.Timeval{{Sec: n.mtime + atimeShift}, {Sec: n.mtime}}
+				syscall.Futimes(fd, tv)
+				syscall.Close(fd)
+				continue
+			}
 			f, err := os.OpenFile(p, os.O_CREATE|os.O_WRONLY|os.O_TRUNC, 0o644)
 			if err != nil {
 				return err
@@ -167,7 +188,7 @@ func (t *tree) materialize(root string) error {
 	})
 	for _, i := range idx {
 		n := t.nodes[i]
-		if n.kind == 'f' || n.kind == 'd' {
+		if (n.kind == 'f' || n.kind == 'd') && len(filepath.Join(root, n.path)) < 4096 {
 			mt := time.Unix(n.mtime, 0)
 			// atime is set to a recognisable value different from mtime (see lockClient.maskTimes)
 			if err := os.Chtimes(filepath.Join(root, n.path), time.Unix(n.mtime+atimeShift, 0), mt); err != nil {
